@@ -1,5 +1,6 @@
 import PagexmlModel.Drv.Util
 import PagexmlModel.Model.C09
+import PagexmlModel.Model.C09Rows
 open Lean
 
 namespace Pagexml.Drv.C09
@@ -119,6 +120,15 @@ def handle (op : String) (args : Json) : Dec Json := do
     let he ← decTable (← field args "table")
     let r := run he nslots { coords := init, cache := none, kids := kids } ops
     return jObj [("ok", jObj [("outs", jList jOut r.2), ("coords", jOpt jPts r.1.coords)])]
+  | "rows" =>
+    -- make_rows_from_cells: cells as {row, row_span, cell_span, header, pts}
+    let cells ← asList (fun c => do
+      return ({ row := ← asOpt asInt (← field c "row"), rowSpan := ← asOpt asInt (← field c "row_span"),
+                cellSpan := ← asOpt asInt (← field c "cell_span"), header := ← asOpt asStr (← field c "header"),
+                coords := ← asOpt decPts (← field c "pts") } : CellG)) (← field args "cells")
+    let he ← decTable (← field args "table")
+    return answer (jList (fun (r : RowG) => jObj [("row", jOpt jInt r.id), ("docs", jList (jOpt jPts) (r.cells.map (·.coords))),
+                                                  ("coords", jCoords r.coords)])) (rowsFromCells he cells)
   | _ => .error s!"unknown op {op}"
 
 end Pagexml.Drv.C09
